@@ -63,7 +63,7 @@ def mk_attr(h, hs, env, a):
     if k == "tran":
         return hs.Tran(tstop=num_obj(h, a[1]), tstep=(num_obj(h, a[2]) if a[2] else None), **kw)
     if k == "noise":
-        out = {"sig": env["tb"].outp, "pair": (env["tb"].outp, env["tb"].outn), "str": "outp"}[a[1]]
+        out = {"sig": env["tb"].outp, "pair": (env["tb"].outp, env["tb"].outn), "str": "outp", "diff": env["diff"]}[a[1]]
         src = {"inst": env["tb"].vsrc, "str": "vsrc"}[a[2]]
         return hs.Noise(output=out, input_source=src, sweep=sweep_obj(h, hs, a[3]), **kw)
     if k == "sweepan":
@@ -111,6 +111,8 @@ def mk_tb(h, hs, variant="ok", name="Tb"):
     tb.vsrc = h.Vdc(dc=1)(p=tb.outp, n=g)
     tb.r = h.R(r=1)(p=tb.outp, n=tb.outn)
     tb.r2 = h.R(r=1)(p=tb.outn, n=g)
+    tb.dd = h.Diff()
+    tb.r3 = h.R(r=1)(p=tb.dd.p, n=tb.dd.n)
     return tb
 
 
@@ -165,7 +167,7 @@ def check_analysis(pa, a, where, names, var_names):
         if a[2] and m.tstep != num_float(a[2]):
             return f"{where}: tstep {m.tstep!r}, expected {num_float(a[2])!r}"
     if k == "noise":
-        want_p, want_n = ("outp", "outn") if a[1] == "pair" else ("outp", "")
+        want_p, want_n = ("outp", "outn") if a[1] == "pair" else ("dd_p", "dd_n") if a[1] == "diff" else ("outp", "")
         if (m.output_p, m.output_n) != (want_p, want_n):
             return f"{where}: noise output ({m.output_p!r}, {m.output_n!r}), expected ({want_p!r}, {want_n!r})"
         if m.input_source != "vsrc":
@@ -294,7 +296,7 @@ def scenarios(quick):
         for s in sw:
             out.append([("param", NUMS[0], "x"), ("dc", ("param", "x"), s, nm("dcp"))])
             out.append([("sweepan", [("tran", NUMS[4], None, nm("in1"))], "temp", s, nm("sw1"))])
-        for o, i in itertools.product(("sig", "pair", "str"), ("inst", "str")):
+        for o, i in itertools.product(("sig", "pair", "str", "diff"), ("inst", "str")):
             out.append([("noise", o, i, ("log", NUMS[0], NUMS[6], 5), nm("nz"))])
         out.append([("custom", ".pz v(out) i(in)", nm("cu"))])
         out.append([("monte", [("op", nm("mop")), ("tran", NUMS[5], None, nm("mtr"))], 11, nm("mc"))])
@@ -321,7 +323,7 @@ def _one(item):
     attrs, style, listing = item
     try:
         tb = mk_tb(h, hs, "ok", "Tb")
-        env = dict(tb=tb, params={}, analyses={})
+        env = dict(tb=tb, params={}, analyses={}, diff=tb.dd)
         objs = []
         for a in attrs:
             o = mk_attr(h, hs, env, a)
